@@ -28,6 +28,11 @@ CHECKS['C01'] = dict(engine='linenworld', design='DESIGN.md section 6, C01',
     note='Module bodies are interpreters over generated program specs running inside real nn.Module subclasses. Thread isolation is not asserted. Fault injection is at callback boundaries only.',
     technique='deterministic simulation: seeded call histories with exception injection at callback events vs snapshot / memo / filter models')
 
+CHECKS['C09'] = dict(engine='nnxworld+linenworld', design='DESIGN.md section 6, C09',
+    text='Both RNG systems are counters, so which key comes out depends on the history of earlier draws. NNX: seeded histories of draws, split_rngs (call and context manager, with the body raising), restore_rngs, reseed, draws inside nnx.jit and nnx.vmap, clone, against a counter model of streams plus a run-global no-reuse set. Linen: every key handed to make_rng and to parameter initialisers by generated programs is compared with an independent model of the derivation (seed, stream or params fallback, module path, per-scope count; both settings of the separator flag), keys of one call are pairwise distinct, and keys at surviving positions are unchanged after program edits.',
+    note='Trusted: jax.random.key/fold_in/split/key_data. Module paths are taken from Module.path. Distinctness is demanded modulo the 32-bit truncation of the derivation itself.',
+    technique='deterministic simulation: seeded draw/split/restore/reseed histories and program-edit histories vs counter and key-derivation models')
+
 NA = {
   'C02': 'variable tree mirrors module tree: relation between stateless init/apply/lazy_init/bind results on the same arguments; ' + PURE,
   'C06': 'lifted scan/vmap = loop/stack: configuration-space equivalence of a pure function; ' + PURE,
@@ -43,16 +48,16 @@ NA = {
 
 # claimed in DESIGN.md, check not built yet (moved to CHECKS as each engine lands)
 _P = 'planned as a claimed check in DESIGN.md section 6 but its engine is not built yet in this commit; not claimed until it runs'
-PENDING = {p: _P for p in ['C04', 'C05', 'C09', 'C17', 'C18']}
+PENDING = {p: _P for p in ['C04', 'C05', 'C17', 'C18']}
 
 ENGINES = [
-  dict(name='kernel', path='sim/kernel.py', serves_properties=['C01', 'C03', 'C11', 'C15', 'C20'], kind_free_text='seed -> JSON plan -> event-log digest; worker processes; ddmin shrinker; replay; evidence'),
+  dict(name='kernel', path='sim/kernel.py', serves_properties=['C01', 'C03', 'C09', 'C11', 'C15', 'C20'], kind_free_text='seed -> JSON plan -> event-log digest; worker processes; ddmin shrinker; replay; evidence'),
   dict(name='sched', path='sim/sched.py', serves_properties=['C11', 'C20'], kind_free_text='baton-passing deterministic thread scheduler; stand-ins for threading and concurrent.futures.thread'),
   dict(name='disk', path='sim/disk.py', serves_properties=['C11'], kind_free_text='in-memory disk with crash / torn-write / I/O-error injection; stand-ins for os, shutil, open, glob and tensorflow.io.gfile'),
   dict(name='fsworld', path='sim/props/c11.py', serves_properties=['C11'], kind_free_text='checkpoint directory histories with crashes, restarts, retries, sweeps and async saves against a retention-policy model'),
   dict(name='valueworld', path='sim/props/c15.py', serves_properties=['C15'], kind_free_text='FrozenDict / struct dataclass call histories with foreign mutations and jit retrace histories'),
   dict(name='nnxworld', path='sim/nnxworld.py', serves_properties=['C03'], kind_free_text='heap of NNX object graphs + pure-Python mirror, canonical form, filters, build ops'),
-  dict(name='programs', path='sim/programs.py', serves_properties=['C01'], kind_free_text='Linen program specs compiled to real nn.Module classes; callback-event fault controller; key recorder'),
+  dict(name='programs', path='sim/programs.py', serves_properties=['C01', 'C09'], kind_free_text='Linen program specs compiled to real nn.Module classes; callback-event fault controller; key recorder'),
   dict(name='linenworld', path='sim/props/c01.py', serves_properties=['C01'], kind_free_text='Linen call histories with fault injection against snapshot/memo/filter models'),
   dict(name='pipeworld', path='sim/props/c20.py', serves_properties=['C20'], kind_free_text='source -> PrefetchIterator / prefetch_to_device -> consumer under the thread scheduler with source fault injection'),
 ]
